@@ -52,6 +52,7 @@ type c08 struct {
 	commits   []blk             // each committed by its own thread
 	reads     [][2]string       // (key, block) looked up by one thread each through StateCache.Get
 	bcReads   []blk             // lookups of key "k" through an uncommitted BlockCache with this (hash, prev)
+	tcReads   []blk             // lookups of key "k" through a TransactionCache of an uncommitted block (hash, prev)
 	truth     map[string]string // "key@block" -> value determined by the block tree ("" = removed / never written)
 	mustHit   []string          // "key@block" that must hit after all commits returned
 }
@@ -81,6 +82,10 @@ func (c c08) scenario() sched.Scenario {
 			bc := statecache.NewBlockCache(sc, statecache.Block{Hash: b.hash, PrevHash: b.prev})
 			add("get(k@"+b.hash+" via block cache on "+b.prev+")", func() string { return show(bc.Get("k")) })
 		}
+		for _, b := range c.tcReads {
+			tc := statecache.NewTransactionCache(statecache.NewBlockCache(sc, statecache.Block{Hash: b.hash, PrevHash: b.prev}))
+			add("get(k@"+b.hash+" via txn cache on "+b.prev+")", func() string { return show(tc.Get("k")) })
+		}
 		judge := func() (string, string) {
 			fail := ""
 			check := func(label, got, at string) {
@@ -100,6 +105,10 @@ func (c c08) scenario() sched.Scenario {
 			for i, b := range c.bcReads {
 				got := strings.SplitN(res[n+len(c.reads)+i], "=", 2)[1]
 				check(res[n+len(c.reads)+i], got, "k@"+b.hash)
+			}
+			for i, b := range c.tcReads {
+				j := n + len(c.reads) + len(c.bcReads) + i
+				check(res[j], strings.SplitN(res[j], "=", 2)[1], "k@"+b.hash)
 			}
 			// post phase: sequential lookups
 			var post []string
@@ -166,6 +175,19 @@ func C08Scenarios() []sched.Scenario {
 			commits: []blk{{hash: "A", prev: "G", sets: map[string]string{"k": "5"}}, {hash: "B", prev: "A", sets: map[string]string{"j": "y"}}},
 			reads:   [][2]string{{"k", "B"}},
 			truth:   map[string]string{"k@B": "5", "k@A": "5", "k@G": "1"}, mustHit: []string{"k@A"}},
+		{name: "S8-deep-chain-two-levels", doc: "G:k=1 <- A <- B <- C committed without k; commit(D on C: k=4) || Get(k,C) || Get(k,D)",
+			chain:   append(append([]blk{}, base...), blk{hash: "B", prev: "A", sets: map[string]string{"j": "y"}}, blk{hash: "C", prev: "B", sets: map[string]string{"j": "z"}}),
+			commits: []blk{{hash: "D", prev: "C", sets: map[string]string{"k": "4"}}},
+			reads:   [][2]string{{"k", "C"}, {"k", "D"}},
+			truth:   map[string]string{"k@D": "4", "k@C": "1", "k@B": "1", "k@A": "1", "k@G": "1"}, mustHit: []string{"k@D"}},
+		{name: "S9-commit-vs-child-transaction-cache", doc: "commit(B:k=2) || TransactionCache(block C on B).Get(k) || Get(k,A)",
+			chain: base, commits: []blk{{hash: "B", prev: "A", sets: map[string]string{"k": "2"}}},
+			reads: [][2]string{{"k", "A"}}, tcReads: []blk{{hash: "C", prev: "B"}},
+			truth: map[string]string{"k@B": "2", "k@A": "1", "k@G": "1", "k@C": "2"}, mustHit: []string{"k@B"}},
+		{name: "S10-two-readers-same-block", doc: "commit(B:k=2) || Get(k,B) || Get(k,B): both readers may memoise",
+			chain: base, commits: []blk{{hash: "B", prev: "A", sets: map[string]string{"k": "2"}}},
+			reads: [][2]string{{"k", "B"}, {"k", "B"}},
+			truth: map[string]string{"k@B": "2", "k@A": "1", "k@G": "1"}, mustHit: []string{"k@B"}},
 	}
 	var out []sched.Scenario
 	for _, c := range cs {
